@@ -203,8 +203,19 @@ class Program:
                (allowed only when no `return` sits inside a loop, `try` or `with` of the helper)."""
         import copy
 
+        overridden_cache: Dict[str, bool] = {}
+
+        def overridden(fi: FuncInfo) -> bool:
+            """a method that some subclass redefines is dispatched on the receiver: `self._m()` is not its body"""
+            if fi.cls is None:
+                return False
+            if fi.fq not in overridden_cache:
+                overridden_cache[fi.fq] = any(fi.name in dict.keys(c.methods) and c.methods[fi.name] is not fi for c in self.subclasses(fi.cls))
+            return overridden_cache[fi.fq]
+
         def private(fi: FuncInfo) -> bool:
-            return fi.name.startswith("_") and not fi.name.startswith("__") and all(d in ("staticmethod",) for d in fi.decorators) and fi.name not in self.KEEP_HELPERS
+            return fi.name.startswith("_") and not fi.name.startswith("__") and all(d in ("staticmethod",) for d in fi.decorators) and fi.name not in self.KEEP_HELPERS \
+                and not overridden(fi)
 
         changed_mods = set()
         self.inlined_generators: Set[str] = set()
